@@ -96,7 +96,7 @@ def main():
         c1 = subprocess.run(['coqc'] + q + ['gen/CmdGen.v'], cwd=coq, capture_output=True, text=True)
         assert c1.returncode == 0, c1.stderr
         broken = []
-        for bf in ('B_Cmd', 'B_CmdSet', 'B_CmdApply', 'B_CmdClaim', 'B_CmdLink', 'B_CmdNew', 'B_CmdGrid'):
+        for bf in ('B_Cmd', 'B_CmdSet', 'B_CmdApply', 'B_CmdClaim', 'B_CmdLink', 'B_CmdNew', 'B_CmdPrune', 'B_CmdGrid'):
             c2 = subprocess.run(['timeout', '1500', 'coqc'] + q + ['bridge/%s.v' % bf], cwd=coq, capture_output=True, text=True)
             if c2.returncode != 0:
                 m = re.search(r'line (\d+)', c2.stderr + c2.stdout)
